@@ -146,6 +146,9 @@ Plants == {[cls |-> "regular", code |-> c] : c \in AllCodes} \cup {[cls |-> "reg
           \cup {[cls |-> "ignored", code |-> c] : c \in {"IMM01", "CTOR01", "TONL02", "PKGO02"}}
           \* uses of @testonly items inside a function that is itself @testonly (non-test file): exempt under every configuration
           \cup {[cls |-> "tctx", code |-> c] : c \in {"TONL01", "TONL02", "TONL03"}}
+          \* two findings at one source position each: d.MkTS().TM(1), d.MkS().PM(2), a type with two failing @implements lines.
+          \* Excluding one code of a pair leaves the other one exactly as it was.
+          \cup {[cls |-> "chain", code |-> c] : c \in {"TONL02", "TONL03", "PKGO02", "PKGO03", "IMPL01", "IMPL03"}}
 
 Skip(cls, c) == \/ cls \in {"ignored", "tctx"}
                 \/ cls = "test" /\ ~c.scan
